@@ -578,6 +578,56 @@ func runSweepOne(c *sweepCase, pair [2]string, plan []swSeg, out *Out, stats *St
 	if c.newTx != nil {
 		rec.noteTx(c.newTx)
 	}
+	// answers handed out before the schedule (what a handler is still encoding while the operations
+	// run): the slices the registries and the pool returned, and what they held
+	type heldAnswer struct {
+		what string
+		ids  func() string
+		was  string
+	}
+	var held []*heldAnswer
+	for _, a := range rec.Universe {
+		us := nd.Ureg.Utxos(a)
+		h := &heldAnswer{what: "outputs of " + a, ids: func() string {
+			var l []string
+			for _, u := range us {
+				if u == nil {
+					l = append(l, "nil")
+				} else {
+					l = append(l, fmt.Sprintf("%s/%d", u.TransactionId(), u.OutputIndex()))
+				}
+			}
+			return strings.Join(l, ",")
+		}}
+		h.was = h.ids()
+		held = append(held, h)
+	}
+	{
+		ts := nd.Pool.Transactions()
+		h := &heldAnswer{what: "pool", ids: func() string {
+			var l []string
+			for _, t := range ts {
+				if t == nil {
+					l = append(l, "nil")
+				} else {
+					l = append(l, t.Id())
+				}
+			}
+			return strings.Join(l, ",")
+		}}
+		h.was = h.ids()
+		held = append(held, h)
+		bs := nd.Chain.Blocks(0)
+		hb := &heldAnswer{what: "blocks", ids: func() string {
+			var l []string
+			for _, b := range bs {
+				l = append(l, blockHashHex(b))
+			}
+			return strings.Join(l, ",")
+		}}
+		hb.was = hb.ids()
+		held = append(held, hb)
+	}
 	nd.Senders.Set(senders)
 	nd.Log.Take()
 	mk := func(kind string) func() {
@@ -662,6 +712,11 @@ func runSweepOne(c *sweepCase, pair [2]string, plan []swSeg, out *Out, stats *St
 	mon.CheckChain(blocks, "after the schedule")
 	mon.CheckDerived(nd, blocks, rec.Universe, "after the schedule")
 	mon.CheckPool(nd.Pool.Transactions(), admitted, "after the schedule")
+	for _, h := range held {
+		if now := h.ids(); now != h.was {
+			mon.hit("C16", "held-answer-changed", fmt.Sprintf("after the schedule: the %s handed out before it read [%s], now [%s] (a handler encoding it meanwhile sends a state that never existed)", h.what, h.was, now))
+		}
+	}
 	// an admitted transaction is never confirmed twice (a pooled transaction that an adopted chain
 	// has confirmed stays pooled until the next tick drops it: that is so sequentially too)
 	count := map[string]int{}
